@@ -59,7 +59,7 @@ def acc_of(pendulum, x):
     if isinstance(x, pendulum.Time):
         o = x.utcoffset()
         return ("Time", x.hour, x.minute, x.second, x.microsecond, None if o is None else int(o.total_seconds()),
-                x.tzname(), x.fold)
+                x.tzname(), x.fold, type(x.tzinfo).__name__, getattr(x.tzinfo, "name", None), x.isoformat())
     if isinstance(x, pendulum.Duration):
         return (type(x).__name__, x.years, x.months, x.weeks, x.remaining_days, x.hours, x.minutes, x.remaining_seconds,
                 x.microseconds, obs.td_us(x), x.invert, x.total_seconds(), x.in_days(), x.seconds)
@@ -205,7 +205,7 @@ def run_shard(shard):
         for f in ((1, 1, 1), (2024, 2, 29), (9999, 12, 31), (1970, 1, 1)):
             cases.append({"k": "date", "f": list(f)})
         for f in ((0, 0, 0, 0), (23, 59, 59, 999999), (12, 30, 15, 1)):
-            for tz in (None, "UTC", 19800, "Europe/Paris"):
+            for tz in (None, "UTC", 19800, -60, "Europe/Paris", "Australia/Lord_Howe"):
                 cases.append({"k": "time", "f": list(f), "tz": tz})
         d1 = {"k": "date", "f": [2020, 1, 31]}
         d2 = {"k": "date", "f": [2021, 3, 1]}
